@@ -745,6 +745,9 @@ def gen_history(ctx, big=None):  # noqa: C901, PLR0912, PLR0915
             m = mutation()
             if m["op"] not in ("foreign", "memput"):
                 blk.append(m)
+        if rng.random() < 0.5:
+            # md5 of an index that was NOT rebuilt after the mutations: its entries carry the former hashes
+            blk.append({"op": "imd5", "s": s1, "alg": blk[1]["alg"] if rng.random() < 0.7 else rng.choice(ALGS)})
         blk += [{"op": "ibuild", "s": s2}, {"op": "iupdate", "s": s2}]
         if rng.random() < 0.5:
             blk.append({"op": "imd5", "s": s2, "alg": rng.choice(["md5", "md5-dos2unix"])})
